@@ -155,7 +155,8 @@ RESP_HEADER_SETS = [
     [["content-type", "text/plain"], ["x-a", "1"], ["x-a", "2"]],
     [["set-cookie", "a=b"], ["set-cookie", "c=d"], ["x-empty", ""]],
 ]
-STATUSES = [200, 201, 204, 304, 404, 500, 301, 418]
+# the neighbours of every body-less status are there on purpose (203/205, 303/305): "exactly for 204 and 304"
+STATUSES = [200, 201, 204, 304, 404, 500, 301, 418, 203, 205, 206, 303, 305, 400, 599]
 CHUNKINGS = [[], [0], [1], [5], [0, 5, 0], [3, 4], [16384], [70000], [1, 70000, 1]]
 
 
@@ -309,6 +310,31 @@ def gen_c06(tier: str, rng: random.Random) -> Iterator[Dict[str, Any]]:
                             steps.append({"s": "dt", "d": 0.1})
                             s2["steps"] = steps
                             yield s2
+    # requests carrying an Upgrade the server does not act on (h2c with a body, websocket on a non-GET, an
+    # unknown token) are ordinary requests; the connection stays reusable and the next request - arriving
+    # after the response, during it, or in the same segment - is served
+    for ui, (method, upg, body) in enumerate((("POST", [["upgrade", "h2c"], ["http2-settings", "AAMAAABkAAQAAP__"], ["connection", "Upgrade, HTTP2-Settings"]], True),
+                                                ("POST", [["upgrade", "websocket"], ["connection", "Upgrade"], ["sec-websocket-version", "13"], ["sec-websocket-key", "dGhlIHNhbXBsZSBub25jZQ=="]], True),
+                                                ("GET", [["upgrade", "foo/2"], ["connection", "Upgrade"]], False),
+                                                ("PUT", [["upgrade", "h2c, foo"], ["connection", "Upgrade"]], True))):
+        for timing in ("after-response", "during-response", "same-segment"):
+            rq1: Dict[str, Any] = {"rid": 1, "method": method, "target": "/u%d" % ui, "headers": [["host", "hypercorn"]] + upg}
+            if body:
+                rq1["body"] = {"framing": "cl", "len": 5}
+            reqs = [rq1, {"rid": 2, "method": "GET", "target": "/next"}]
+            resp = build.simple_resp_program(chunks=[3])
+            apps = {"1": ([["gate"]] if timing == "during-response" else []) + resp, "2": build.simple_resp_program(chunks=[2])}
+            sc = base_script(reqs, apps, fam="c06/ignored-upgrade/%d/%s" % (ui, timing))
+            first_end = sc["reqs"][0]["end"]
+            total = stream_len(sc)
+            if timing == "after-response":
+                sc["steps"] = [{"s": "send", "upto": first_end}, {"s": "dt", "d": 0.05}, {"s": "send", "upto": total}, {"s": "dt", "d": 0.1}]
+            elif timing == "during-response":
+                sc["steps"] = [{"s": "send", "upto": first_end}, {"s": "dt", "d": 0.05}, {"s": "send", "upto": total},
+                               {"s": "go", "app": "1", "n": 1}, {"s": "dt", "d": 0.1}]
+            else:
+                sc["steps"] = [{"s": "send", "upto": total}, {"s": "dt", "d": 0.1}]
+            yield sc
     # malformed second request: first is served, second gets 400 + close
     reqs = [{"rid": 1, "method": "GET", "target": "/ok"},
             {"rid": 2, "raw_head": "GET / HTTP/1.1\r\nbad header line\r\n\r\n", "bad": True, "method": "GET"}]
